@@ -143,7 +143,8 @@ class Tap:
             i = idx(self_)
             tr = getattr(self_, "_verif_trace", None)
             before = len(tr._events) if tr is not None else None
-            open_before = self_._state.name not in ("CLOSING", "DRAINING", "TERMINATED")
+            # (a connection that has decided to close - closing state entered, or a close waiting for the next transmit - handles no more packets)
+            open_before = self_._state.name not in ("CLOSING", "DRAINING", "TERMINATED") and not getattr(self_, "_close_pending", False)
             try:
                 r = orig_rx(self_, data, addr, now)
             except Exception as e:  # noqa
